@@ -897,3 +897,632 @@ Section MergeLeft.
       apply opt_is_true in E2. tauto.
   Qed.
 End MergeLeft.
+
+(* ================================================================ the invariant of the fusion loop *)
+Definition nonord (g : gate) : bool := negb (is_ord g).
+
+Record Inv (n k : nat) (c : list gate) (st : state) : Prop := mkInv {
+  inv_adj : Adj st;
+  inv_wf : WF n st;
+  inv_flat : gteqn n (flat st) c;
+  inv_nonord : filter nonord (flat st) = filter nonord c;
+  inv_width : forall i, nmarked (getn st i) = false -> 2 <= length (ngates (getn st i)) ->
+              length (nqs (getn st i)) <= k }.
+
+Lemma wf_node_ext n a b : nqs a = nqs b -> ngates a = ngates b -> nmarked a = nmarked b ->
+  wf_node n a -> wf_node n b.
+Proof. unfold wf_node. intros -> -> ->. auto. Qed.
+
+Lemma nflat_live_nonempty nd x : In x (nflat nd) -> live nd = true.
+Proof.
+  intros H. destruct (live nd) eqn:E; auto. rewrite nflat_absorbed in H by auto. inversion H.
+Qed.
+
+Lemma blocks_indep n st m r : WF n st -> m < length st -> r < length st ->
+  (forall q, In q (nqs (getn st r)) -> ~ onG (lvP st) (qsP st) m q) ->
+  indep_blocks (gindepn n) (nflat (getn st m)) (nflat (getn st r)).
+Proof.
+  intros Hwf Hm Hr H x y Hx Hy. unfold gindepn, sindep. apply disjointb_spec.
+  intros q Hqx Hqy.
+  apply (wf_nflat_supp n _ _ (Hwf m Hm) Hx) in Hqx.
+  apply (wf_nflat_supp n _ _ (Hwf r Hr) Hy) in Hqy.
+  apply (H q Hqy). split; auto. unfold lvP. eapply nflat_live_nonempty; eauto.
+Qed.
+
+Lemma filter_nonord_ord l : (forall g, In g l -> is_ord g = true) -> filter nonord l = [].
+Proof.
+  induction l as [|g l IH]; intros H; simpl; auto.
+  unfold nonord at 1. rewrite (H g) by (left; auto). simpl. apply IH. intros; apply H; right; auto.
+Qed.
+
+Lemma wf_unmarked_ord n nd : wf_node n nd -> nmarked nd = false ->
+  forall g, In g (ngates nd) -> is_ord g = true.
+Proof. intros [_ H] Hm g Hg. rewrite Hm in H. destruct H as [_ H]. apply H; auto. Qed.
+
+Section MergeRightInv.
+  Variables (n k : nat) (c : list gate) (st : state) (l r : nat).
+  Hypothesis HI : Inv n k c st.
+  Hypothesis Hlr : l < r.
+  Hypothesis Hml : nmarked (getn st l) = false.
+  Hypothesis Hmr : nmarked (getn st r) = false.
+  Hypothesis Hoth : others (nleft (getn st r)) l = [].
+  Hypothesis Hbtw :
+    between_ok (nright (getn st l)) (sinter (nqs (getn st l)) (nqs (getn st r))) r = true.
+  Hypothesis Hk : length (sunion (nqs (getn st l)) (nqs (getn st r))) <= k.
+
+  Let Hadj := inv_adj _ _ _ _ HI.
+  Let Hwf := inv_wf _ _ _ _ HI.
+  Let Hr : r < length st := unmarked_range st r Hmr.
+
+  Lemma mr_wf : WF n (merge_right st l r).
+  Proof.
+    intros i Hi. rewrite mr_len in Hi.
+    destruct (Nat.eq_dec i l) as [->|Hil]; [|destruct (Nat.eq_dec i r) as [->|Hir]].
+    - rewrite (mr_get_l st l r Hlr Hmr). unfold mr_parent, wf_node; cbn [nqs ngates nmarked].
+      destruct (Hwf l Hi) as [Hs HL]. destruct (Hwf r Hr) as [_ HR].
+      rewrite Hml in *. rewrite Hmr in HR.
+      split; [apply sunion_sorted; auto|]. destruct HL as [HL1 HL2]. destruct HR as [HR1 HR2].
+      split.
+      + intros E. apply app_eq_nil in E. tauto.
+      + intros g Hg. apply in_app_or in Hg. destruct Hg as [Hg|Hg].
+        * destruct (HL2 g Hg). split; auto. intros x Hx. apply sunion_In. left; auto.
+        * destruct (HR2 g Hg). split; auto. intros x Hx. apply sunion_In. right; auto.
+    - rewrite (mr_get_r st l r Hlr Hmr). unfold absorb, wf_node; cbn [nqs ngates nmarked].
+      destruct (Hwf r Hr) as [Hs HR]. rewrite Hmr in HR. destruct HR as [HR1 HR2].
+      split; auto. right. split; auto. intros g Hg. apply HR2; auto.
+    - rewrite (mr_get_o st l r Hlr Hmr) by auto.
+      eapply wf_node_ext; [| | |apply (Hwf i Hi)]; reflexivity.
+  Qed.
+
+  Lemma mr_nflat_other i : i <> l -> i <> r ->
+    nflat (getn (merge_right st l r) i) = nflat (getn st i).
+  Proof.
+    intros Hil Hir. destruct (lt_dec i (length st)).
+    - rewrite (mr_get_o st l r Hlr Hmr) by auto. reflexivity.
+    - rewrite (mr_get_out st l r) by lia. reflexivity.
+  Qed.
+
+  Lemma mr_nflat_l : nflat (getn (merge_right st l r) l) = nflat (getn st l) ++ nflat (getn st r).
+  Proof.
+    rewrite (mr_get_l st l r Hlr Hmr). rewrite !nflat_unmarked; auto.
+  Qed.
+
+  Lemma mr_nflat_r : nflat (getn (merge_right st l r) r) = [].
+  Proof.
+    rewrite (mr_get_r st l r Hlr Hmr). apply nflat_absorbed. unfold absorb.
+    apply (wf_unmarked_absorb n _ (Hwf r Hr) Hmr).
+  Qed.
+
+  Lemma mr_between m : l < m -> m < r ->
+    forall q, In q (nqs (getn st r)) -> ~ onG (lvP st) (qsP st) m q.
+  Proof.
+    intros H1 H2 q Hq.
+    apply (claim_between true (lvP st) (qsP st) (rt st) (lf st) l r (qsP_dec st) Hadj); auto.
+    - apply unmarked_live; auto.
+    - apply unmarked_live; auto.
+    - intros q0 Ha Hb. destruct (between_ok_spec _ _ _ Hbtw) as [_ H]. apply H.
+      apply sinter_In; auto.
+    - intros q0 j E. rewrite others_nil in Hoth. eapply Hoth; eauto.
+  Qed.
+
+  Lemma mr_flat : gteqn n (flat (merge_right st l r)) (flat st).
+  Proof.
+    unfold flat. rewrite mr_len.
+    apply (flat_move_back (gindepn n) (sindep_sym (gsupp n))
+             (fun i => nflat (getn st i)) (fun i => nflat (getn (merge_right st l r) i))
+             (length st) l r Hlr Hr).
+    - apply mr_nflat_other.
+    - apply mr_nflat_l.
+    - apply mr_nflat_r.
+    - intros m H1 H2. apply blocks_indep; auto; try lia. apply mr_between; auto.
+  Qed.
+
+  Lemma mr_nonord : filter nonord (flat (merge_right st l r)) = filter nonord (flat st).
+  Proof.
+    unfold flat. rewrite mr_len. rewrite !filter_flat_map. apply flat_map_ext_in'.
+    intros i _. destruct (Nat.eq_dec i l) as [->|Hil]; [|destruct (Nat.eq_dec i r) as [->|Hir]].
+    - rewrite mr_nflat_l, filter_app.
+      rewrite (filter_nonord_ord (nflat (getn st r))); [apply app_nil_r|].
+      rewrite nflat_unmarked by auto. apply (wf_unmarked_ord n _ (Hwf r Hr) Hmr).
+    - rewrite mr_nflat_r. simpl. symmetry. apply filter_nonord_ord.
+      rewrite nflat_unmarked by auto. apply (wf_unmarked_ord n _ (Hwf r Hr) Hmr).
+    - rewrite mr_nflat_other; auto.
+  Qed.
+
+  Lemma mr_inv : Inv n k c (merge_right st l r).
+  Proof.
+    constructor.
+    - apply (mr_adj n); auto.
+    - apply mr_wf.
+    - eapply teq_trans; [apply mr_flat | apply (inv_flat _ _ _ _ HI)].
+    - rewrite mr_nonord. apply (inv_nonord _ _ _ _ HI).
+    - intros i Hm Hg.
+      destruct (Nat.eq_dec i l) as [->|Hil]; [|destruct (Nat.eq_dec i r) as [->|Hir]].
+      + rewrite (mr_get_l st l r Hlr Hmr). exact Hk.
+      + rewrite (mr_get_r st l r Hlr Hmr) in Hm. discriminate.
+      + destruct (lt_dec i (length st)).
+        * rewrite (mr_get_o st l r Hlr Hmr) in * by auto. apply (inv_width _ _ _ _ HI i); auto.
+        * rewrite (mr_get_out st l r) in * by lia. apply (inv_width _ _ _ _ HI i); auto.
+  Qed.
+End MergeRightInv.
+
+Section MergeLeftInv.
+  Variables (n k : nat) (c : list gate) (st : state) (l r : nat).
+  Hypothesis HI : Inv n k c st.
+  Hypothesis Hlr : l < r.
+  Hypothesis Hml : nmarked (getn st l) = false.
+  Hypothesis Hmr : nmarked (getn st r) = false.
+  Hypothesis Hoth : others (nright (getn st l)) r = [].
+  Hypothesis Hbtw :
+    between_ok (nleft (getn st r)) (sinter (nqs (getn st l)) (nqs (getn st r))) l = true.
+  Hypothesis Hk : length (sunion (nqs (getn st r)) (nqs (getn st l))) <= k.
+
+  Let Hadj := inv_adj _ _ _ _ HI.
+  Let Hwf := inv_wf _ _ _ _ HI.
+  Let Hr : r < length st := unmarked_range st r Hmr.
+  Let Hl : l < length st := Nat.lt_trans _ _ _ Hlr Hr.
+
+  Lemma ml_wf : WF n (merge_left st l r).
+  Proof.
+    intros i Hi. rewrite ml_len in Hi.
+    destruct (Nat.eq_dec i r) as [->|Hir]; [|destruct (Nat.eq_dec i l) as [->|Hil]].
+    - rewrite (ml_get_r st l r Hlr Hmr). unfold ml_parent, wf_node; cbn [nqs ngates nmarked].
+      destruct (Hwf l Hl) as [_ HL]. destruct (Hwf r Hr) as [Hs HR].
+      rewrite Hmr in *. rewrite Hml in HL.
+      split; [apply sunion_sorted; auto|]. destruct HL as [HL1 HL2]. destruct HR as [HR1 HR2].
+      split.
+      + intros E. apply app_eq_nil in E. tauto.
+      + intros g Hg. apply in_app_or in Hg. destruct Hg as [Hg|Hg].
+        * destruct (HL2 g Hg). split; auto. intros x Hx. apply sunion_In. right; auto.
+        * destruct (HR2 g Hg). split; auto. intros x Hx. apply sunion_In. left; auto.
+    - rewrite (ml_get_l st l r Hlr Hmr). unfold absorb, wf_node; cbn [nqs ngates nmarked].
+      destruct (Hwf l Hl) as [Hs HL]. rewrite Hml in HL. destruct HL as [HL1 HL2].
+      split; auto. right. split; auto. intros g Hg. apply HL2; auto.
+    - rewrite (ml_get_o st l r Hlr Hmr) by auto.
+      eapply wf_node_ext; [| | |apply (Hwf i Hi)]; reflexivity.
+  Qed.
+
+  Lemma ml_nflat_other i : i <> l -> i <> r ->
+    nflat (getn (merge_left st l r) i) = nflat (getn st i).
+  Proof.
+    intros Hil Hir. destruct (lt_dec i (length st)).
+    - rewrite (ml_get_o st l r Hlr Hmr) by auto. reflexivity.
+    - rewrite (ml_get_out st l r) by lia. reflexivity.
+  Qed.
+
+  Lemma ml_nflat_r : nflat (getn (merge_left st l r) r) = nflat (getn st l) ++ nflat (getn st r).
+  Proof.
+    rewrite (ml_get_r st l r Hlr Hmr). rewrite !nflat_unmarked; auto.
+  Qed.
+
+  Lemma ml_nflat_l : nflat (getn (merge_left st l r) l) = [].
+  Proof.
+    rewrite (ml_get_l st l r Hlr Hmr). apply nflat_absorbed. unfold absorb.
+    apply (wf_unmarked_absorb n _ (Hwf l Hl) Hml).
+  Qed.
+
+  Lemma ml_between m : l < m -> m < r ->
+    forall q, In q (nqs (getn st l)) -> ~ onG (lvP st) (qsP st) m q.
+  Proof.
+    intros H1 H2 q Hq.
+    apply (claim_between false (lvP st) (qsP st) (lf st) (rt st) r l (qsP_dec st)); auto.
+    - apply (AdjG_flip true). exact Hadj.
+    - apply unmarked_live; auto.
+    - apply unmarked_live; auto.
+    - intros q0 Ha Hb. destruct (between_ok_spec _ _ _ Hbtw) as [_ H]. apply H.
+      apply sinter_In; auto.
+    - intros q0 j E. rewrite others_nil in Hoth. eapply Hoth; eauto.
+  Qed.
+
+  Lemma ml_flat : gteqn n (flat (merge_left st l r)) (flat st).
+  Proof.
+    unfold flat. rewrite ml_len.
+    apply (flat_move_fwd (gindepn n) (sindep_sym (gsupp n))
+             (fun i => nflat (getn st i)) (fun i => nflat (getn (merge_left st l r) i))
+             (length st) l r Hlr Hr).
+    - apply ml_nflat_other.
+    - apply ml_nflat_r.
+    - apply ml_nflat_l.
+    - intros m H1 H2. apply indep_blocks_sym; [apply sindep_sym|].
+      apply blocks_indep; auto; try lia. apply ml_between; auto.
+  Qed.
+
+  Lemma ml_nonord : filter nonord (flat (merge_left st l r)) = filter nonord (flat st).
+  Proof.
+    unfold flat. rewrite ml_len. rewrite !filter_flat_map. apply flat_map_ext_in'.
+    intros i _. destruct (Nat.eq_dec i r) as [->|Hir]; [|destruct (Nat.eq_dec i l) as [->|Hil]].
+    - rewrite ml_nflat_r, filter_app.
+      rewrite (filter_nonord_ord (nflat (getn st l))); [reflexivity|].
+      rewrite nflat_unmarked by auto. apply (wf_unmarked_ord n _ (Hwf l Hl) Hml).
+    - rewrite ml_nflat_l. simpl. symmetry. apply filter_nonord_ord.
+      rewrite nflat_unmarked by auto. apply (wf_unmarked_ord n _ (Hwf l Hl) Hml).
+    - rewrite ml_nflat_other; auto.
+  Qed.
+
+  Lemma ml_inv : Inv n k c (merge_left st l r).
+  Proof.
+    constructor.
+    - apply (ml_adj n); auto.
+    - apply ml_wf.
+    - eapply teq_trans; [apply ml_flat | apply (inv_flat _ _ _ _ HI)].
+    - rewrite ml_nonord. apply (inv_nonord _ _ _ _ HI).
+    - intros i Hm Hg.
+      destruct (Nat.eq_dec i r) as [->|Hir]; [|destruct (Nat.eq_dec i l) as [->|Hil]].
+      + rewrite (ml_get_r st l r Hlr Hmr). exact Hk.
+      + rewrite (ml_get_l st l r Hlr Hmr) in Hm. discriminate.
+      + destruct (lt_dec i (length st)).
+        * rewrite (ml_get_o st l r Hlr Hmr) in * by auto. apply (inv_width _ _ _ _ HI i); auto.
+        * rewrite (ml_get_out st l r) in * by lia. apply (inv_width _ _ _ _ HI i); auto.
+  Qed.
+End MergeLeftInv.
+
+(* ================================================================ fuse_pair, the loops *)
+Lemma ssorted_ext a b : ssorted a -> ssorted b -> (forall x, In x a <-> In x b) -> a = b.
+Proof.
+  intros Ha. revert b. induction Ha as [|x a Hs IH Hf]; intros b Hb H.
+  - destruct b as [|y b]; auto. exfalso. apply (H y). left; auto.
+  - destruct Hb as [|y b Hsb Hfb].
+    + exfalso. apply (H x). left; auto.
+    + rewrite Forall_forall in Hf, Hfb.
+      assert (x = y) as ->.
+      { destruct (proj1 (H x) (or_introl eq_refl)) as [E|E]; auto.
+        destruct (proj2 (H y) (or_introl eq_refl)) as [E2|E2]; auto.
+        apply Hfb in E. apply Hf in E2. lia. }
+      f_equal. apply IH; auto. intros z. split; intros Hz.
+      * destruct (proj1 (H z) (or_intror Hz)) as [E|E]; auto. subst. apply Hf in Hz. lia.
+      * destruct (proj2 (H z) (or_intror Hz)) as [E|E]; auto. subst. apply Hfb in Hz. lia.
+Qed.
+
+Lemma sunion_comm_sorted a b : ssorted a -> ssorted b -> sunion a b = sunion b a.
+Proof.
+  intros Ha Hb. apply ssorted_ext; try (apply sunion_sorted; auto).
+  intros x. rewrite !sunion_In. tauto.
+Qed.
+
+Lemma fuse_pair_inv n k c st l r :
+  Inv n k c st -> l < r ->
+  nmarked (getn st l) = false -> nmarked (getn st r) = false ->
+  length (sunion (nqs (getn st l)) (nqs (getn st r))) <= k ->
+  Inv n k c (fuse_pair st l r).
+Proof.
+  intros HI Hlr Hml Hmr Hk. unfold fuse_pair.
+  destruct ((0 <? length (others (nright (getn st l)) r)) && (0 <? length (others (nleft (getn st r)) l))) eqn:E0; auto.
+  destruct (length (others (nleft (getn st r)) l) <? length (others (nright (getn st l)) r)) eqn:E1.
+  - destruct (between_ok _ _ r) eqn:E2; auto.
+    apply mr_inv; auto.
+    apply Nat.ltb_lt in E1. apply andb_false_iff in E0.
+    destruct (others (nleft (getn st r)) l) as [|x xs]; auto. exfalso.
+    destruct E0 as [E0|E0]; apply Nat.ltb_ge in E0; simpl in *; lia.
+  - destruct (between_ok _ _ l) eqn:E2; auto.
+    apply ml_inv; auto.
+    + apply Nat.ltb_ge in E1. apply andb_false_iff in E0.
+      destruct (others (nright (getn st l)) r) as [|x xs]; auto. exfalso.
+      destruct E0 as [E0|E0]; apply Nat.ltb_ge in E0; simpl in *; lia.
+    + pose proof (unmarked_range _ _ Hmr) as Hr.
+      rewrite sunion_comm_sorted; auto.
+      * apply (inv_wf _ _ _ _ HI r Hr).
+      * apply (inv_wf _ _ _ _ HI l). lia.
+Qed.
+
+Lemma can_fuse_spec st a b k : can_fuse st a b k = true ->
+  nmarked (getn st a) = false /\ nmarked (getn st b) = false
+  /\ length (sunion (nqs (getn st a)) (nqs (getn st b))) <= k.
+Proof.
+  unfold can_fuse. intros H. apply andb_true_iff in H. destruct H as [H H3].
+  apply andb_true_iff in H. destruct H as [H1 H2].
+  apply negb_true_iff in H1, H2. apply Nat.leb_le in H3. auto.
+Qed.
+
+Lemma visit_q_inv n k c i st q : Inv n k c st -> Inv n k c (visit_q k i st q).
+Proof.
+  intros HI. unfold visit_q.
+  set (st1 := match lookup (nright (getn st i)) q with
+              | Some nb => if can_fuse st i nb k then fuse_pair st i nb else st
+              | None => st end).
+  assert (Inv n k c st1) as HI1.
+  { subst st1. destruct (lookup (nright (getn st i)) q) as [nb|] eqn:E; auto.
+    destruct (can_fuse st i nb k) eqn:Ec; auto.
+    destruct (can_fuse_spec _ _ _ _ Ec) as [Hmi [Hmn Hk]].
+    apply fuse_pair_inv; auto.
+    destruct (proj1 (proj1 (inv_adj _ _ _ _ HI)) i q nb (unmarked_live _ Hmi) E)
+      as [_ [[_ [Hlt _]]|[Hd _]]].
+    - exact Hlt.
+    - exfalso. apply Hd. apply unmarked_live; auto. }
+  clearbody st1.
+  destruct (lookup (nleft (getn st1 i)) q) as [nb|] eqn:E; auto.
+  destruct (can_fuse st1 i nb k) eqn:Ec; auto.
+  destruct (can_fuse_spec _ _ _ _ Ec) as [Hmi [Hmn Hk]].
+  apply fuse_pair_inv; auto.
+  - destruct (proj1 (proj2 (inv_adj _ _ _ _ HI1)) i q nb (unmarked_live _ Hmi) E)
+      as [_ [[_ [Hlt _]]|[Hd _]]].
+    + exact Hlt.
+    + exfalso. apply Hd. apply unmarked_live; auto.
+  - pose proof (unmarked_range _ _ Hmi) as Hi. pose proof (unmarked_range _ _ Hmn) as Hn.
+    rewrite sunion_comm_sorted; auto.
+    + apply (inv_wf _ _ _ _ HI1 nb Hn).
+    + apply (inv_wf _ _ _ _ HI1 i Hi).
+Qed.
+
+Lemma fold_left_inv {X Y} (P : X -> Prop) (f : X -> Y -> X) l x :
+  (forall x y, P x -> P (f x y)) -> P x -> P (fold_left f l x).
+Proof. intros H. revert x. induction l; simpl; auto. Qed.
+
+Lemma visit_inv n k c st i : Inv n k c st -> Inv n k c (visit k st i).
+Proof.
+  intros HI. unfold visit. destruct (nmarked (getn st i)); auto.
+  apply fold_left_inv; auto. intros; apply visit_q_inv; auto.
+Qed.
+
+Lemma fuse_loop_inv n k c st : Inv n k c st -> Inv n k c (fuse_loop k st).
+Proof.
+  intros HI. unfold fuse_loop. apply fold_left_inv; auto. intros; apply visit_inv; auto.
+Qed.
+
+(* ================================================================ to_fused establishes the invariant *)
+Definition fresh (nd : node) : Prop := exists g, ngates nd = [g] /\ nmarked nd = negb (is_ord g).
+
+Lemma fresh_live nd : fresh nd -> live nd = true.
+Proof.
+  intros [g [E1 E2]]. unfold live, absorbed. rewrite E1, E2. destruct (is_ord g); reflexivity.
+Qed.
+
+Lemma fresh_nflat nd : fresh nd -> nflat nd = ngates nd.
+Proof.
+  intros [g [E1 E2]]. unfold nflat, node_items. rewrite E1, E2.
+  destruct (is_ord g) eqn:E; simpl; auto.
+Qed.
+
+Lemma ssorted_seq a n : ssorted (seq a n).
+Proof.
+  revert a. induction n as [|n IH]; intros a; simpl; constructor; auto.
+  apply Forall_forall. intros x Hx. apply in_seq in Hx. lia.
+Qed.
+
+Definition on (st : state) := onG (lvP st) (qsP st).
+
+(* what the dictionary last_gate says *)
+Definition last_ok (st : state) (last : nmap) : Prop :=
+  forall q, match lookup last q with
+            | Some j => j < length st /\ qsP st j q /\ (forall m, j < m -> ~ on st m q)
+            | None => forall m, ~ on st m q
+            end.
+
+Record Pre (n : nat) (c0 : list gate) (st : state) (last : nmap) : Prop := mkPre {
+  pre_adj : Adj st;
+  pre_wf : WF n st;
+  pre_fresh : forall j, j < length st -> fresh (getn st j);
+  pre_range : forall j q j2, rt st j q = Some j2 \/ lf st j q = Some j2 -> j2 < length st;
+  pre_last : last_ok st last;
+  pre_flat : flat st = c0 }.
+
+Section AddNode.
+  Variables (n : nat) (c0 : list gate) (st : state) (last : nmap) (g : gate).
+  Hypothesis HP : Pre n c0 st last.
+  Let i := length st.
+  Let qs := node_qs n g.
+  Let nd := mkNode qs [g] (negb (is_ord g)) (mupd [] qs (fun q => put_or (lookup last q) Keep)) [].
+  Let upd (j : nat) (x : node) :=
+    mkNode (nqs x) (ngates x) (nmarked x) (nleft x)
+      (mupd (nright x) qs (fun q => if opt_is (lookup last q) j then Put i else Keep)).
+  Let st2 := fst (add_node n (st, last) g).
+  Let last2 := snd (add_node n (st, last) g).
+
+  Let Hadj := pre_adj _ _ _ _ HP.
+  Let Hfresh := pre_fresh _ _ _ _ HP.
+  Let Hrange := pre_range _ _ _ _ HP.
+  Let Hlast := pre_last _ _ _ _ HP.
+
+  Lemma an_st2 : st2 = mapi upd st ++ [nd].
+  Proof. reflexivity. Qed.
+  Lemma an_last2 : last2 = mupd last qs (fun _ => Put i).
+  Proof. reflexivity. Qed.
+  Lemma an_len : length st2 = S i.
+  Proof. rewrite an_st2, app_length, mapi_length. simpl. lia. Qed.
+  Lemma an_get_old j : j < i -> getn st2 j = upd j (getn st j).
+  Proof.
+    intros H. rewrite an_st2. unfold getn. rewrite app_nth1 by (rewrite mapi_length; auto).
+    apply mapi_nth; auto.
+  Qed.
+  Lemma an_get_new : getn st2 i = nd.
+  Proof.
+    rewrite an_st2. unfold getn. rewrite app_nth2 by (rewrite mapi_length; auto).
+    rewrite mapi_length. replace (i - length st) with 0 by (unfold i; lia). reflexivity.
+  Qed.
+  Lemma an_get_out j : i < j -> getn st2 j = dnode.
+  Proof. intros H. apply getn_out. rewrite an_len. lia. Qed.
+
+  Lemma lv_old j : lvP st j <-> j < i.
+  Proof.
+    split; [apply lvP_range|]. intros H. apply fresh_live. apply Hfresh; auto.
+  Qed.
+  Lemma an_lv j : lvP st2 j <-> j <= i.
+  Proof.
+    unfold lvP. destruct (lt_eq_lt_dec j i) as [[H|->]|H].
+    - rewrite an_get_old by auto. change (live (upd j (getn st j))) with (live (getn st j)).
+      rewrite (fresh_live _ (Hfresh j H)). split; [lia|auto].
+    - rewrite an_get_new. split; [lia|intros _].
+      unfold nd, live, absorbed; simpl. destruct (is_ord g); reflexivity.
+    - rewrite an_get_out by auto. simpl. split; [discriminate|lia].
+  Qed.
+  Lemma an_qs j q : qsP st2 j q <-> (j < i /\ qsP st j q) \/ (j = i /\ In q qs).
+  Proof.
+    unfold qsP. destruct (lt_eq_lt_dec j i) as [[H|->]|H].
+    - rewrite an_get_old by auto. simpl. split; [auto|intros [[_ ?]|[? _]]; [auto|lia]].
+    - rewrite an_get_new. simpl. split; [auto|intros [[? _]|[_ ?]]; [lia|auto]].
+    - rewrite an_get_out by auto. simpl. split; [tauto|intros [[? _]|[? _]]; lia].
+  Qed.
+  Lemma an_on m q : on st2 m q <-> on st m q \/ (m = i /\ In q qs).
+  Proof.
+    unfold on, onG. rewrite an_lv, an_qs, lv_old. split.
+    - intros [H1 [[H2 H3]|[H2 H3]]]; auto.
+    - intros [[H1 H2]|[H1 H2]]; [split; [lia|left; auto] | split; [lia|right; auto]].
+  Qed.
+  Lemma on_old_lt m q : on st m q -> m < i.
+  Proof. intros [H _]. apply lv_old; auto. Qed.
+
+  Lemma an_rt_old j q : j < i ->
+    rt st2 j q = if memb q qs && opt_is (lookup last q) j then Some i else rt st j q.
+  Proof.
+    intros H. unfold rt. rewrite an_get_old by auto. unfold upd; cbn [nright].
+    rewrite lookup_mupd. destruct (memb q qs); simpl; auto.
+    destruct (opt_is (lookup last q) j); reflexivity.
+  Qed.
+  Lemma an_rt_new q : rt st2 i q = None.
+  Proof. unfold rt. rewrite an_get_new. reflexivity. Qed.
+  Lemma an_lf_old j q : j < i -> lf st2 j q = lf st j q.
+  Proof. intros H. unfold lf. rewrite an_get_old by auto. reflexivity. Qed.
+  Lemma an_lf_new q : lf st2 i q = if memb q qs then lookup last q else None.
+  Proof.
+    unfold lf. rewrite an_get_new. unfold nd; cbn [nleft]. rewrite lookup_mupd.
+    destruct (memb q qs); auto. simpl. destruct (lookup last q); reflexivity.
+  Qed.
+
+  (* the last-gate dictionary pins down the last node on a qubit *)
+  Lemma last_unique j q : j < i -> qsP st j q -> (forall m, j < m -> ~ on st m q) ->
+    lookup last q = Some j.
+  Proof.
+    intros Hj Hq Hn. pose proof (Hlast q) as HL.
+    assert (on st j q) as Hon by (split; [apply lv_old; auto|auto]).
+    destruct (lookup last q) as [j'|].
+    - destruct HL as [Hj' [Hq' Hn']]. f_equal.
+      destruct (lt_eq_lt_dec j j') as [[H|H]|H]; auto.
+      + exfalso. apply (Hn j' H). split; auto. apply lv_old; auto.
+      + exfalso. apply (Hn' j H). auto.
+    - exfalso. apply (HL j). auto.
+  Qed.
+
+  Lemma an_adj : Adj st2.
+  Proof.
+    destruct Hadj as [[HrS HrN] [HlS HlN]]. simpl in HlS, HlN.
+    split; split; simpl.
+    - (* right, Some *)
+      intros j q j2 Hj E. apply an_lv in Hj.
+      destruct (Nat.eq_dec j i) as [->|Hji]; [rewrite an_rt_new in E; discriminate|].
+      assert (j < i) as Hlt by lia. rewrite an_rt_old in E by auto.
+      destruct (memb q qs && opt_is (lookup last q) j) eqn:Eb.
+      + inversion E; subst j2. apply andb_true_iff in Eb. destruct Eb as [Eq El].
+        apply memb_In in Eq. apply opt_is_true in El.
+        pose proof (Hlast q) as HL. rewrite El in HL. destruct HL as [_ [Hq Hn]].
+        split; [apply an_qs; auto|]. left.
+        split; [apply an_lv; lia|]. split; auto. split; [apply an_qs; auto|].
+        intros m H1 H2 Hon. apply an_on in Hon. destruct Hon as [Hon|[-> _]]; [|lia].
+        apply (Hn m); auto.
+      + destruct (HrS j q j2 (proj2 (lv_old j) Hlt) E) as [Hq [[Hl2 [Hlt2 [Hq2 Hb]]]|[Hd _]]].
+        * split; [apply an_qs; auto|]. left. apply lv_old in Hl2.
+          split; [apply an_lv; lia|]. split; auto. split; [apply an_qs; auto|].
+          intros m H1 H2 Hon. apply an_on in Hon. destruct Hon as [Hon|[-> _]]; [|lia].
+          apply (Hb m); auto.
+        * exfalso. apply Hd. apply lv_old. apply (Hrange j q j2). auto.
+    - (* right, None *)
+      intros j q Hj Hq E m Hm Hon. apply an_lv in Hj. apply an_on in Hon.
+      destruct (Nat.eq_dec j i) as [->|Hji].
+      + destruct Hon as [Hon|[-> _]]; [apply on_old_lt in Hon|]; lia.
+      + assert (j < i) as Hlt by lia. rewrite an_rt_old in E by auto.
+        destruct (memb q qs && opt_is (lookup last q) j) eqn:Eb; [discriminate|].
+        apply an_qs in Hq. destruct Hq as [[_ Hq]|[? _]]; [|lia].
+        pose proof (HrN j q (proj2 (lv_old j) Hlt) Hq E) as Hn.
+        destruct Hon as [Hon|[-> Hin]]; [apply (Hn m); auto|].
+        rewrite (last_unique j q Hlt Hq Hn) in Eb.
+        rewrite (In_memb _ _ Hin) in Eb. simpl in Eb. rewrite Nat.eqb_refl in Eb. discriminate.
+    - (* left, Some *)
+      intros j q j2 Hj E. apply an_lv in Hj.
+      destruct (Nat.eq_dec j i) as [->|Hji].
+      + rewrite an_lf_new in E. destruct (memb q qs) eqn:Eq; [|discriminate].
+        apply memb_In in Eq. pose proof (Hlast q) as HL. rewrite E in HL.
+        destruct HL as [Hj2 [Hq2 Hn]].
+        split; [apply an_qs; auto|]. left.
+        split; [apply an_lv; lia|]. split; auto. split; [apply an_qs; auto|].
+        intros m H1 H2 Hon. apply an_on in Hon. destruct Hon as [Hon|[-> _]]; [|lia].
+        apply (Hn m); auto.
+      + assert (j < i) as Hlt by lia. rewrite an_lf_old in E by auto.
+        destruct (HlS j q j2 (proj2 (lv_old j) Hlt) E) as [Hq [[Hl2 [Hlt2 [Hq2 Hb]]]|[Hd _]]].
+        * split; [apply an_qs; auto|]. left. apply lv_old in Hl2.
+          split; [apply an_lv; lia|]. split; auto. split; [apply an_qs; auto|].
+          intros m H1 H2 Hon. apply an_on in Hon. destruct Hon as [Hon|[-> _]]; [|lia].
+          apply (Hb m); auto.
+        * exfalso. apply Hd. apply lv_old. apply (Hrange j q j2). auto.
+    - (* left, None *)
+      intros j q Hj Hq E m Hm Hon. apply an_lv in Hj. apply an_on in Hon.
+      destruct (Nat.eq_dec j i) as [->|Hji].
+      + rewrite an_lf_new in E. apply an_qs in Hq. destruct Hq as [[? _]|[_ Hq]]; [lia|].
+        rewrite (In_memb _ _ Hq) in E. pose proof (Hlast q) as HL. rewrite E in HL.
+        destruct Hon as [Hon|[-> _]]; [apply (HL m); auto|lia].
+      + assert (j < i) as Hlt by lia. rewrite an_lf_old in E by auto.
+        apply an_qs in Hq. destruct Hq as [[_ Hq]|[? _]]; [|lia].
+        destruct Hon as [Hon|[-> _]]; [|lia].
+        apply (HlN j q (proj2 (lv_old j) Hlt) Hq E m); auto.
+  Qed.
+
+  Lemma an_wf : WF n st2.
+  Proof.
+    intros j Hj. rewrite an_len in Hj. destruct (Nat.eq_dec j i) as [->|Hji].
+    - rewrite an_get_new. unfold nd, wf_node; cbn [nqs ngates nmarked]. split.
+      + unfold qs, node_qs. destruct (gk g); try apply sort_set_sorted. apply ssorted_seq.
+      + destruct (is_ord g) eqn:Eo; simpl.
+        * split; [discriminate|]. intros g0 [<-|[]]. split; auto.
+          unfold qs, node_qs. unfold is_ord in Eo. destruct (gk g); try discriminate.
+          intros x Hx. apply sort_set_In; auto.
+        * left. exists g. split; auto. split; auto.
+          unfold qs, node_qs, gsupp. unfold is_ord in Eo. destruct (gk g); try discriminate.
+          -- intros x Hx. apply sort_set_In; auto.
+          -- apply incl_refl.
+    - rewrite an_get_old by lia.
+      eapply wf_node_ext; [| | |apply (pre_wf _ _ _ _ HP j); unfold i in *; lia]; reflexivity.
+  Qed.
+
+  Lemma an_fresh j : j < length st2 -> fresh (getn st2 j).
+  Proof.
+    intros Hj. rewrite an_len in Hj. destruct (Nat.eq_dec j i) as [->|Hji].
+    - rewrite an_get_new. exists g. auto.
+    - rewrite an_get_old by lia. destruct (Hfresh j) as [g0 [E1 E2]]; [unfold i in *; lia|].
+      exists g0. auto.
+  Qed.
+
+  Lemma an_range j q j2 : rt st2 j q = Some j2 \/ lf st2 j q = Some j2 -> j2 < length st2.
+  Proof.
+    rewrite an_len. destruct (lt_eq_lt_dec j i) as [[H|->]|H].
+    - rewrite an_rt_old, an_lf_old by auto.
+      destruct (memb q qs && opt_is (lookup last q) j).
+      + intros [E|E]; [inversion E; lia|]. pose proof (Hrange j q j2 (or_intror E)). unfold i; lia.
+      + intros E. pose proof (Hrange j q j2 E). unfold i; lia.
+    - rewrite an_rt_new, an_lf_new. intros [E|E]; [discriminate|].
+      destruct (memb q qs); [|discriminate]. pose proof (Hlast q) as HL. rewrite E in HL.
+      destruct HL. unfold i; lia.
+    - unfold rt, lf. rewrite an_get_out by auto. simpl. intros [E|E]; discriminate.
+  Qed.
+
+  Lemma an_last_ok : last_ok st2 last2.
+  Proof.
+    intros q. rewrite an_last2, lookup_mupd. destruct (memb q qs) eqn:Eq; simpl.
+    - apply memb_In in Eq. rewrite an_len. split; [lia|]. split; [apply an_qs; auto|].
+      intros m Hm Hon. apply an_on in Hon. destruct Hon as [Hon|[-> _]]; [|lia].
+      apply on_old_lt in Hon. lia.
+    - apply memb_false in Eq. pose proof (Hlast q) as HL. destruct (lookup last q) as [j|].
+      + destruct HL as [Hj [Hq Hn]]. rewrite an_len. split; [unfold i; lia|].
+        split; [apply an_qs; auto|].
+        intros m Hm Hon. apply an_on in Hon. destruct Hon as [Hon|[_ Hin]]; [|auto].
+        apply (Hn m); auto.
+      + intros m Hon. apply an_on in Hon. destruct Hon as [Hon|[_ Hin]]; [|auto].
+        apply (HL m); auto.
+  Qed.
+
+  Lemma an_flat : flat st2 = c0 ++ [g].
+  Proof.
+    unfold flat. rewrite an_len. change (S i) with (1 + i). rewrite Nat.add_comm.
+    rewrite seq_app, flat_map_app. simpl. rewrite an_get_new, app_nil_r. f_equal.
+    - rewrite <- (pre_flat _ _ _ _ HP). unfold flat. apply flat_map_ext_in'.
+      intros j Hj. apply in_seq in Hj. rewrite an_get_old by (unfold i; lia). reflexivity.
+    - rewrite fresh_nflat; [reflexivity|]. exists g. auto.
+  Qed.
+
+  Lemma an_pre : Pre n (c0 ++ [g]) st2 last2.
+  Proof.
+    constructor.
+    - apply an_adj.
+    - apply an_wf.
+    - apply an_fresh.
+    - apply an_range.
+    - apply an_last_ok.
+    - apply an_flat.
+  Qed.
+End AddNode.
